@@ -571,6 +571,16 @@ def block_diagonalize(
                 key: np.array(sympy.sympify(value).applyfunc(NumberOrderedForm.from_expr))
                 for key, value in fully_diagonalize.items()
             }
+            if hermitian and any(
+                to_eliminate[i, j].adjoint() != to_eliminate[j, i]
+                for to_eliminate in fully_diagonalize.values()
+                for i in range(to_eliminate.shape[0])
+                for j in range(i + 1)
+            ):
+                raise ValueError(
+                    "The values of fully_diagonalize dictionary must be symmetric: the "
+                    "adjoint of entry (i, j) must be entry (j, i)."
+                )
 
             def diag(x, index):
                 x = x[index] if isinstance(x, BlockSeries) else x
